@@ -1,5 +1,5 @@
 (* C10 — Size, Cost and Stats agree with what the cache holds and did. CacheProofs.v. Only `exact` + Print Assumptions. *)
-Require Import KV.Base KV.Gen.Consts KV.ConfigModel KV.CacheModel KV.ClassicProofs KV.SieveProofs KV.CacheProofs KV.TtlProofs KV.MutexAtomicity KV.StripedCounter KV.PtrModel KV.PtrProofs.
+Require Import KV.Base KV.Gen.Consts KV.ConfigModel KV.CacheModel KV.ClassicProofs KV.SieveProofs KV.CacheProofs KV.TtlProofs KV.MutexAtomicity KV.StripedCounter KV.PtrModel KV.PtrProofs KV.ShutdownApply.
 Open Scope Z_scope.
 
 (* in every state: total size = number of resident items = table sizes; total cost = sum of item costs when tracked, else size; len(Keys) <= size *)
@@ -25,8 +25,8 @@ Theorem c10_structures_agree :
          NoDup (tabk s) /\
          (forall k : Z, In k (tabk s) <-> In k (map key l)) /\
          (forall k : Z, In k (tabk s) <-> lookup s (policy c) k <> None) /\
-         size s = zlen l /\
-         size s = zlen (tabk s) /\
+         CacheModel.size s = zlen l /\
+         CacheModel.size s = zlen (tabk s) /\
          scost s = sumZ (map cost l) /\
          (forall it : item,
           In it l -> 0 <= cost it /\ unpub it = false /\ lookup s (policy c) (key it) = Some it) /\
@@ -162,19 +162,20 @@ Proof. exact MutexAtomicity.atomicity. Qed.
 
 (* striped atomic counters: in every reachable state the stripes sum to the number of recordHit calls made, for any number of goroutines and any sharing of stripes *)
 Theorem c10_striped_sum_is_count :
-  forall (n : nat) (s : state), reachable n s -> sumf (stripes s) n = done s.
+  forall (n : nat) (s : state), StripedCounter.reachable n s -> sumf (stripes s) n = done s.
 Proof. exact StripedCounter.sum_is_count. Qed.
 
 (* an aggregate running concurrently returns a value between the count when it started and the count when it returned *)
 Theorem c10_striped_aggregate_bounds :
   forall (n : nat) (s : state) (a : nat) (c0 r : Z),
-         reachable n s -> nth_error (threads s) a = Some (Agg c0 n r) -> c0 <= r <= done s.
+         StripedCounter.reachable n s ->
+         nth_error (threads s) a = Some (Agg c0 n r) -> c0 <= r <= done s.
 Proof. exact StripedCounter.aggregate_bounds. Qed.
 
 (* with no increment between its start and its return (a quiescent moment) aggregate is exact *)
 Theorem c10_striped_aggregate_quiescent :
   forall (n : nat) (s0 s' : state) (a : nat) (c0 r : Z),
-         reachable n s0 ->
+         StripedCounter.reachable n s0 ->
          nth_error (threads s0) a = Some AggNew ->
          star (quiet_step n)
            {|
@@ -186,7 +187,8 @@ Proof. exact StripedCounter.aggregate_quiescent_trace. Qed.
 
 (* the non-atomic Load/Store variant loses updates when two goroutines share a stripe (seeded change C10d-m2) *)
 Theorem c10_load_store_variant_loses_updates :
-  option_map (observe 1) (exec_ls 1 (init lu_threads) [0%nat; 1%nat; 0%nat; 1%nat]) =
+  option_map (observe 1)
+           (exec_ls 1 (StripedCounter.init lu_threads) [0%nat; 1%nat; 0%nat; 1%nat]) =
          Some ([1], 2, [Inc []; Inc []]).
 Proof. exact StripedCounter.load_store_loses_updates. Qed.
 
@@ -229,6 +231,18 @@ Theorem c10_ptr_lfu_ring :
            (fold_left LfuRing.lfu_abs_step ops []).
 Proof. exact LfuRing.lfu_ring_refines. Qed.
 
+(* F15 repaired: whatever calls that began before Close do afterwards (any number of late drainers, every interleaving), once Close has returned the shard is empty and stays empty *)
+Theorem c10_closed_cache_stays_empty :
+  forall (n0 k : nat) (s : st), reachable true n0 k s -> pcc s = CDone -> size s = 0%nat.
+Proof. exact closed_cache_stays_empty. Qed.
+
+(* F15 before the repair: Close runs to completion, a late drainer then applies a command published during shutdown: the closed cache holds an entry *)
+Theorem c10_closed_cache_refuted_before_fix :
+  exists s : st,
+           exec false (init 1 1) [LC; LC; LC; LC; LD 0; LD 0; LD 0] = Some s /\
+           pcc s = CDone /\ pcd s = [DDone] /\ size s = 1%nat.
+Proof. exact closed_cache_refuted_before_fix. Qed.
+
 Print Assumptions c10_size_cost.
 Print Assumptions c10_structures_agree.
 Print Assumptions c10_counters.
@@ -245,3 +259,5 @@ Print Assumptions c10_load_store_exact_without_sharing.
 Print Assumptions c10_example.
 Print Assumptions c10_ptr_sieve_sequence.
 Print Assumptions c10_ptr_lfu_ring.
+Print Assumptions c10_closed_cache_stays_empty.
+Print Assumptions c10_closed_cache_refuted_before_fix.
